@@ -179,9 +179,9 @@ Proof.
   destruct Hs as (id & ow & es & Hr & _). unfold with_root. rewrite Hr. unfold nranks. exact Hl.
 Qed.
 
-Lemma step_nranks s o : wf_st s -> nranks (fst (Store.step s o)) = nranks s.
+Lemma step0_nranks s o : wf_st s -> nranks (fst (Store.step0 s o)) = nranks s.
 Proof.
-  intros Hs. destruct o; cbn [Store.step].
+  intros Hs. destruct o; cbn [Store.step0].
   - destruct (Nat.leb (length pt) (nranks s) && negb (Nat.eqb (length pt) 0)); [|reflexivity].
     pose proof (get_ref_rk_length (nranks s) (s_d s) w pt O (root_es s) (s_next s) (s_ranks s)) as H2.
     destruct (get_ref (nranks s) (s_d s) w O pt (root_es s) (s_next s) (s_ranks s))
@@ -267,6 +267,20 @@ Proof.
     destruct (at_path_st path _ O (root_es s) (s_next s) (s_ranks s)) as [[[es' nx] rk]|] eqn:Hat;
       [|reflexivity]. cbn [fst].
     refine (at_path_st_nranks s path _ (es', nx, rk) Hs _ Hat). intros. apply assign_fib_len.
+  - reflexivity.
+Qed.
+
+(* OSetItemCF = the coordinate-only assignment, then the fiber-only assignment (step_decomp) *)
+Lemma step_nranks s o : wf_st s -> nranks (fst (Store.step s o)) = nranks s.
+Proof.
+  intros Hs.
+  destruct (step_decomp s o) as [E|(path & pos & c & t & _ & [[E _]|(s1 & r1 & _ & E1 & E2)])].
+  - rewrite E. apply step0_nranks. exact Hs.
+  - rewrite E. reflexivity.
+  - pose proof (step0_wf s (OSetItem path pos (Some c) None) Hs) as Hs1.
+    pose proof (step0_nranks s (OSetItem path pos (Some c) None) Hs) as Hn1.
+    rewrite E1 in Hs1, Hn1. cbn [fst] in Hs1, Hn1.
+    rewrite E2, <- Hn1. apply step0_nranks. exact Hs1.
 Qed.
 
 Lemma outcome_code_V o :
